@@ -244,7 +244,7 @@ def native_patches(case, it):
         setattr(owner, name, new)
         undo.append((owner, name, old if had else _MISSING))
 
-    for qual, st in case.make_stubs().items():
+    for qual, st in (case.make_stubs().items() if getattr(case, 'native_stubs', True) else ()):
         if qual == '_io.open':
             def wrapper(*a, _st=st, **k):
                 return _st(it, *a, **k)
@@ -484,6 +484,16 @@ def run_native_case(case, tier):
                 wall_s=round(time.time() - t0, 3))
 
 
+def _model_inputs(path, m):
+    d = dict((n, explore.model_value(m, e)) for n, e in path.inputs.items())
+    for n, fn in path.extractors.items():
+        try:
+            d[n] = fn(m)
+        except Exception as e:      # noqa
+            d[n] = "extractor failed: %r" % (e,)
+    return d
+
+
 def run_case(case, tier='quick'):
     """explore one case symbolically, replay refutations natively; returns a json-able dict"""
     if getattr(case, 'native_only', False):
@@ -505,12 +515,12 @@ def run_case(case, tier='quick'):
             r = path.solver.check()
             if r == z3.sat:
                 m = path.solver.model()
-                covers.append(dict((n, explore.model_value(m, e)) for n, e in path.inputs.items()))
+                covers.append(_model_inputs(path, m))
             elif r != z3.unsat and path.quantified:
                 # fall back on the quantifier-free part: the native run re-checks the precondition itself (assume)
                 if path.ground.check() == z3.sat:
                     m = path.ground.model()
-                    covers.append(dict((n, explore.model_value(m, e)) for n, e in path.inputs.items()))
+                    covers.append(_model_inputs(path, m))
 
     tmo = case.timeout_ms * (6 if tier == 'thorough' else 1)
     ex = explore.Explorer(case.name, runner, timeout_ms=tmo, max_paths=case.max_paths,
@@ -543,6 +553,10 @@ def run_case(case, tier='quick'):
             r = replay(case, rec['inputs'])
             rec['replay'] = r
             rec['confirmed'] = (clause in r['failed']) or bool(r.get('timeout') and clause.startswith('resource'))
+            if '#loop' in clause and ':invariant-' in clause and r['failed'] and not r.get('assume_failed'):
+                # a loop annotation is not a clause of the native run: its counter-model is confirmed when the real function
+                # breaks one of the postconditions on it
+                rec['confirmed'] = True
             if rec['confirmed']:
                 confirmed.append(rec)
         ob['confirmed'] = len(confirmed)
